@@ -989,6 +989,10 @@ func (g *gen) method(s *Service, name string, cell int) {
 				&ErrResp{Name: "beta", Code: 422, Headers: []Mapped{{Attr: "message", Wire: "X-Error-Message"}}})
 		}
 		switch g.o.Index % 4 {
+		case 0:
+			// an error with a designed content type declared BEFORE one without: the second negotiates as usual
+			m.Errors = append(m.Errors, &ErrDef{Name: "in_xml"}, &ErrDef{Name: "after_xml", Temporary: true})
+			h.Errors = append(h.Errors, &ErrResp{Name: "in_xml", Code: 417, ContentType: "application/xml"}, &ErrResp{Name: "after_xml", Code: 421})
 		case 2:
 			// an error of the default type answered without a body: its attributes travel in goa-attribute-* headers
 			m.Errors = append(m.Errors, &ErrDef{Name: "gone", Temporary: true})
